@@ -58,6 +58,10 @@ GROUPS.append(G("bash.hash.search", "harness/C10/bash_chunks.c", "h_bash_hash", 
 GROUPS.append(G("bash.prg.search", "harness/C10/bash_chunks.c", "h_bash_prg", BASH, level="N", backend="native", search=60000,
                 fn=["bashPrgStart", "bashPrgAbsorbStep", "bashPrgEncrStep", "bashPrgDecrStep", "bashPrgSqueezeStep"],
                 note="native: keyed automaton, (l, d) in {128,192,256} x {1,2}, commands in one call vs fragments, relocation, Decr o Encr; NOT proof"))
+GROUPS.append(G("belt.frag3.search", "harness/C10/frag3.c", "h_frag3", BELT, level="N", backend="native", search=60000,
+                fn=["beltCHEStepE", "beltCHEStepD", "beltCHEStepI", "beltCHEStepA", "beltDWPStepE", "beltDWPStepA", "beltCTRStepE", "beltCFBStepE", "beltCFBStepD",
+                    "beltMACStepA", "beltHMACStepA", "beltHashStepH"],
+                note="three fragments of generated lengths 0..50 each (small / block-completing lengths weighted) against the one-shot functions; NOT proof"))
 TRUSTED = ["stubs/belt_uf.c: uninterpreted block function (both sides of every equality share it)"]
 ASSUMPTIONS = ["two fragments from a freshly started state; a third fragment would start from a state of the same shape (fill level + symbolic chaining values)"]
 NOT_COVERED = ["brng, botp bundles", "SDE and FMT bundles, KRP", "bash bundles only natively"]
